@@ -105,7 +105,8 @@ def generate(rng, tier):
         data = [[rng.randint(-64, 64) / 4.0 for _ in es] for _ in range(2)]
         if rng.random() < 0.2:      # integer-valued data, handed over with an integer dtype (see impl)
             data = [[float(rng.randint(-64, 64)) for _ in es] for _ in range(2)]
-        which = rng.choice(["spline", "spline", "vector", "knn", "linear", "cubic", "chain-trend-spline", "vector-of", "chain-trend-knn"])
+        which = rng.choice(["spline", "spline", "vector", "knn", "linear", "cubic", "chain-trend-spline", "vector-of", "chain-trend-knn",
+                            "chain-trend-linear-knn", "chain-trend-trend-spline"])
         params = {"spline": {"mindist": rng.choice([0, 0, 1e-3 * scale, scale])},
                   "vector": {"poisson": rng.choice([-1.0, -0.5, 0.0, 0.5, 1.0]), "mindist": rng.choice([0.5, 2.0, 8.0]) * scale},
                   "linear": {"rescale": rng.random() < 0.5}, "cubic": {"rescale": rng.random() < 0.5}}.get(which, {})
@@ -128,6 +129,10 @@ def build(which, params):
         return vd.Chain([("trend", vd.Trend(1)), ("spline", vd.Spline())]), 1
     if which == "chain-trend-knn":
         return vd.Chain([("step", vd.Trend(2)), ("step", vd.KNeighbors(k=1))]), 1       # names are labels only (may repeat)
+    if which == "chain-trend-linear-knn":       # three predicting steps: every one of them contributes to the sum
+        return vd.Chain([("trend", vd.Trend(1)), ("linear", vd.Linear()), ("knn", vd.KNeighbors(k=1))]), 1
+    if which == "chain-trend-trend-spline":
+        return vd.Chain([("t0", vd.Trend(0)), ("t2", vd.Trend(2)), ("spline", vd.Spline())]), 1
     if which == "vector-of":
         return vd.Vector([vd.Spline(), vd.Chain([("trend", vd.Trend(1)), ("knn", vd.KNeighbors(1))])]), 2
     raise ValueError(which)
@@ -175,7 +180,7 @@ def _cond(case):
     coords = (np.array(es), np.array(ns))
     with warnings.catch_warnings():
         warnings.simplefilter("ignore")
-        if which in ("spline", "chain-trend-spline", "vector-of"):
+        if which in ("spline", "chain-trend-spline", "vector-of", "chain-trend-trend-spline"):
             return float(np.linalg.cond(vd.Spline(mindist=params.get("mindist", 0)).jacobian(coords, coords)))
         if which == "vector":
             return float(np.linalg.cond(vd.VectorSpline2D(poisson=params["poisson"], mindist=params["mindist"]).jacobian(coords, coords)))
@@ -233,7 +238,7 @@ def oracle(case, io):
         es, ns, deg, coef, d, qe, qn, exact = a
         if not exact:
             return None
-        jac = vd.Trend(deg).jacobian((np.array(es), np.array(ns)))
+        jac = np.array([[float(C.fq(x) ** i * C.fq(y) ** j) for (i, j) in combos(deg)] for x, y in zip(es, ns)])      # (the oracle's own design matrix)
         jac = jac / np.maximum(np.max(np.abs(jac), axis=0), 1e-300)      # (the fit is scale-free: conditioning is judged on unit-size columns)
         if np.linalg.matrix_rank(jac) < jac.shape[1] or np.linalg.cond(jac) > 1e9:
             return None      # points not unisolvent for this degree
